@@ -94,6 +94,24 @@ def check(repo: Repo, R) -> None:
                 pops_in_body = bool(pat.find(f"{lv}.pop({val}.name)", ast.Module(inner[0].body, [])))
                 guard_ok = guard_ok and pops_in_body and it in (f"{lv}.get({val}.name) is {o}", f"{o} is {lv}.get({val}.name)", f"{val}.name in {lv}")
                 guard_txt += f"; per container: {it}"
+        # an object already held under another key leaves that key (namespace and per-kind views) before it is stored again
+        moved = False
+        for lp in au.walk_no_nested(fa.node):
+            if isinstance(lp, ast.For) and isinstance(lp.iter, ast.ListComp) and len(lp.iter.generators) == 1:
+                g_ = lp.iter.generators[0]
+                if ast.unparse(g_.iter) == f"{arg}.namespace.items()" and isinstance(g_.target, ast.Tuple) and len(g_.target.elts) == 2:
+                    kk, hh = [ast.unparse(x) for x in g_.target.elts]
+                    conds_ = {ast.unparse(c) for c in (g_.ifs[0].values if len(g_.ifs) == 1 and isinstance(g_.ifs[0], ast.BoolOp) and isinstance(g_.ifs[0].op, ast.And) else g_.ifs)}
+                    lv_ = ast.unparse(lp.target)
+                    pops_ns = bool(pat.find(f"{arg}.namespace.pop({lv_})", lp))
+                    views = set()
+                    for il in [x for x in ast.walk(lp) if isinstance(x, ast.For) and x is not lp and isinstance(x.iter, (ast.Tuple, ast.List))]:
+                        if pat.find(f"{ast.unparse(il.target)}.pop({lv_})", il):
+                            views |= {ast.unparse(e).split(".", 1)[1] for e in il.iter.elts if ast.unparse(e).startswith(arg + ".")}
+                    moved = conds_ == {f"{hh} is {val}", f"{kk} != {val}.name"} and ast.unparse(lp.iter.elt) == kk and pops_ns and set(kinds) <= views and shared_before(fa.node, lp, stores[0])
+        R.check(moved, rule, key_of(fa, f"{cls}-one-key-per-object"), fa.site,
+                f"{cls}._add: an object that is already held under another name is removed from that key (namespace and every per-kind view) before it is stored under its new one: {moved}",
+                why="`m.a = sig; m.b = sig` leaves the signal (now named `b`) under both keys: get('a') returns an object of another name and the module declares signal `b` twice")
         # alternative: reject re-use outright
         rejects = any(isinstance(n, ast.If) and ast.unparse(n.test) in (f"{val}.name in {arg}.namespace",) and au.raises(n.body, noret) for n in au.walk_no_nested(fa.node))
         ok = rejects or (set(kinds) <= evicted and ev_line is not None and shared_before(fa.node, ev_loops[0], stores[0]) and guard_ok)
